@@ -7,6 +7,22 @@ ROOT = os.path.dirname(os.path.dirname(os.path.abspath(__file__)))
 
 # property id -> dict(text, note, technique, design_ref) for claimed checks
 CLAIMED = {
+    'C03': dict(
+        text='Machine-checked (C03_eval_refines_spec, ~2800 lines of proofs): for EVERY environment (regex engine, clock, commands, file '
+             'system), message and rule tree of the grammar shape with arbitrary nesting and number of rules - conditions over all/new/old/'
+             'header/body/date and command/isdirectory without back-references, actions move/flag/flags/label/discard/reject/exec/add-header '
+             'with pass/break last (decidable domain InDomain) - whenever the documented evaluation is not decided by a pass or action pending '
+             'from an enclosing block (the pinned finding F11), the Lean transcription of expr_eval_* and the match-list primitives returns the '
+             'documented result and, on a match, the documented actions (same non-move/flag actions in order, same last move-or-flag). Tied to '
+             'the working tree on every run: the real yacc parser + expr_eval + matches_interpolate (ASan harness) on bounded-exhaustive small '
+             'trees with all valuations plus random trees with every operator; exact match-list comparison with the model, documented '
+             'semantics evaluated on the implementation\'s plan, and an independent recursive-descent reading of the grammar compared with '
+             'the tree the parser built (precedence/associativity/nesting).',
+        note='Trusted: Lean kernel, Spec/Rules.lean, the generators, platform regexec/strptime (FFI on the model side). Attachment conditions '
+             'and attachment blocks are outside the theorem\'s domain (covered by the exact correspondence only). "No match => nothing '
+             'changes" and block selection by "-" are world-level statements not claimed here yet. Known finding F11 (pass crosses block) is '
+             'confirmed by two witnesses on every run.',
+        technique='Lean 4 proof (simulation between match list and documented rule semantics) + differential execution through the real parser'),
     'C08': dict(
         text='Machine-checked: for EVERY well-formed message (Spec.read: no NUL, header block of fields, one empty line, body not starting '
              'with a newline - the domain the property names) and every sequence of header settings (SetOk: no newline/NUL in the value, no '
@@ -19,6 +35,16 @@ CLAIMED = {
              'the four complement classes the property text pins (NUL, no empty line, body starting with newline, CRLF) are replayed as '
              'KNOWN-FINDING witnesses. Not covered: a label value that decodes to a newline (X-Label: =?x?Q?a=0Ab?=) - values are assumed SetOk.',
         technique='Lean 4 proof (refinement to a line-based field list) + differential execution + spec predicate on real output'),
+    'C09': dict(
+        category='proof',
+        text='PARTIAL. Machine-checked flag algebra for every flag set and file name: flags are read only from the text after the last colon '
+             'of the file NAME (C09_flags_parse), written back as :2, + upper case ascending + lower case ascending, each once, within the '
+             '64-byte buffer (C09_flags_str), write-then-read is the identity (C09_flags_roundtrip), new->cur gains S, cur->new loses S, all '
+             'other flags preserved (C09_S_adjust). Tied to the working tree by differential execution of message_flags_parse/str and '
+             'msgflags, and of message_parse + evaluator on maildirs whose path contains ":".',
+        note='NOT yet decided by this check: destination of move/flag/flags sequences (known findings F12, F20), freshness of generated names '
+             'under collisions, preservation of the modification time - these need the process-level world model (in progress).',
+        technique='Lean 4 proof (bit-set algebra) + differential execution'),
     'C10': dict(
         text='Machine-checked: searchheader on every table sorted by the case-insensitive comparator returns the first index and length of the '
              'maximal run of equal names (C10_binary_search, all sizes and duplicate arrangements); unfolding yields one logical line '
@@ -55,6 +81,18 @@ CLAIMED = {
              'the specification (strtoul quirk, recorded in DESIGN.md). Parse-time macro expansion (expandmacros, -D) is not modelled yet. Known '
              'finding F20: `move "...\\1" flag new` leaves the template uninterpolated (listed under C09).',
         technique='Lean 4 proof (C loop = token-wise substitution) + differential execution + spec evaluated on real captures'),
+    'C15': dict(
+        text='Machine-checked: the numeric zone +-hhmm denotes +-(3600 hh + 60 mm) for hh<=23, mm<=59 and nothing else is accepted '
+             '(C15_zone_offset, C15_zone_offset_only); the civil-date arithmetic of timegm is the proleptic Gregorian day count for every date '
+             'from year 1 (C15_civil); the parsed instant is the UTC reading minus the zone and > / < compare now - instant strictly with the age '
+             '(C15_true_age) - the model has no local-zone or DST parameter at all after the fix: commit eb8c9c9; the unit table regenerated '
+             'from parse.y is the documented one and a lexeme selects a unit iff it is an unambiguous prefix (C15_units); ages overflow-checked '
+             'at 2^32 (C15_overflow). Tied to the working tree by differential execution of tzoff/time_parse under 14 TZ settings over '
+             'instants 1970-2037 incl. DST switches, and of date conditions with thresholds at age-1/age/age+1 and every unit prefix through '
+             'the real parser and evaluator.',
+        note='Trusted: Lean kernel, Spec/Time.lean, strptime and the zone-NAME lookup (platform, FFI on the model side), generators. '
+             'modified/created/access (stat timestamps) are exercised at process level only.',
+        technique='Lean 4 proof (arithmetic, finite table) + differential execution with pinned clock'),
     'C16': dict(
         text='Machine-checked: the Lean transcription of b64_pton/base64_decode, quoted_printable_decode(_buffer) and rfc2047_decode '
              'equals independent reference decoders (RFC 4648 / QP / RFC 2047) for EVERY byte string (theorems C16_b64, C16_b64_len, '
@@ -71,15 +109,12 @@ CLAIMED = {
 NOT_YET = {
     'C01': 'check under construction (world model + fault-injection shim)',
     'C02': 'check under construction (world model + kill points)',
-    'C03': 'check under construction (evaluator model)',
     'C04': 'check under construction',
     'C05': 'check under construction',
     'C06': 'check under construction',
     'C07': 'check under construction',
-    'C09': 'check under construction',
     'C13': 'check under construction',
     'C14': 'check under construction',
-    'C15': 'check under construction',
     'C17': 'check under construction',
     'C18': 'check under construction',
 }
